@@ -226,6 +226,13 @@ def parseOffset (colon : Bool) (inp : Bytes) : Option (Int × Bytes) :=
                     some ((if s == 45 then -v else v), rest3)
           | _, _ => none
 
+/-- `parse_optional_sign`: (negative?, rest) -/
+def optSign (inp : Bytes) : Bool × Bytes :=
+  match inp with
+  | 45 :: r => (true, r)
+  | 43 :: r => (false, r)
+  | r => (false, r)
+
 /-- one step of `Parser::parse` -/
 def parseItem (it : Item) (f : Fields) (inp : Bytes) : Option (Fields × Bytes) :=
   match it with
@@ -239,14 +246,9 @@ def parseItem (it : Item) (f : Fields) (inp : Bytes) : Option (Fields × Bytes) 
     else match it with
       | .lit _ => none
       | .Y =>
-        let (neg, inp') : Bool × Bytes :=
-          match inp with
-          | 45 :: r => (true, r)
-          | 43 :: r => (false, r)
-          | r => (false, r)
-        match parseNumber 4 false inp' with
+        match parseNumber 4 false (optSign inp).2 with
         | none => none
-        | some (n, rest) => some ({ f with year := some (if neg then -(n : Int) else n) }, rest)
+        | some (n, rest) => some ({ f with year := some (if (optSign inp).1 then -(n : Int) else n) }, rest)
       | .m =>
         match parseNumber 2 false inp with
         | none => none
@@ -519,15 +521,11 @@ def i64Hi : Int := 9223372036854775807
 
 /-- `i64::from_str` / `i32::from_str`: optional sign, at least one digit, digits only, in range -/
 def parseIntIn (lo hi : Int) (bs : Bytes) : Option Int :=
-  let (neg, ds) : Bool × Bytes :=
-    match bs with
-    | 45 :: r => (true, r)
-    | 43 :: r => (false, r)
-    | r => (false, r)
+  let ds := (optSign bs).2
   if ds.isEmpty || !ds.all isDigitB then none
   else
-    let n : Int := ds.foldl (fun acc b => acc * 10 + (b.toNat - 48)) (0 : Nat)
-    let v := if neg then -n else n
+    let n : Nat := ds.foldl (fun acc b => acc * 10 + (b.toNat - 48)) 0
+    let v : Int := if (optSign bs).1 then -(n : Int) else (n : Int)
     if v < lo ∨ v > hi then none else some v
 
 /-- `str::split_whitespace` on ASCII input -/
